@@ -129,7 +129,11 @@ func (env *Env) c07StatusDecoder() {
 	// the same set written as a lookup table: `if _, ok := known[status]; !ok { reject }`
 	// with known a package-level map filled once, by its initialiser
 	if len(accepted) == 0 {
-		for _, b := range fn.Blocks {
+		var blocks []*ssa.BasicBlock
+		for _, f := range env.calleesBelow(fn) {
+			blocks = append(blocks, f.Blocks...)
+		}
+		for _, b := range blocks {
 			for _, in := range b.Instrs {
 				lk, ok := in.(*ssa.Lookup)
 				if !ok || !lk.CommaOk {
@@ -151,12 +155,13 @@ func (env *Env) c07StatusDecoder() {
 				if !ok {
 					continue
 				}
-				// the flag must gate every success path
+				// the flag must gate every success path (directly or through a
+				// membership helper that returns it)
 				ee := env.engine()
-				lt := ee.Eval(lk, ee.Root(fn))
+				flag := pat.Res("1", pat.Op(flow.OpLookup, "", pat.Global(load.GlobalName(gl)), pat.Any()))
 				gated := true
 				for _, a := range ee.EntryPaths(fn, flow.ModeErr) {
-					if hasGateAny(a, pat.Res("1", pat.Is(lt))) == nil {
+					if hasGateAny(a, flag) == nil {
 						gated = false
 					}
 				}
@@ -178,6 +183,71 @@ func (env *Env) c07StatusDecoder() {
 					}
 				}
 				if !onlyUpdates {
+					accepted = map[string]bool{}
+				}
+			}
+		}
+	}
+	// or as a linear search of a package-level array / slice of statuses filled by
+	// its initialiser: every success path carries  decoded == table[i]
+	if len(accepted) == 0 {
+		ee := env.engine()
+		alts := ee.EntryPaths(fn, flow.ModeErr)
+		var table string
+		okAll := len(alts) > 0
+		for _, a := range alts {
+			found := ""
+			for _, g := range a.Gates {
+				if g.Pred == nil {
+					continue
+				}
+				p := flow.StripConv(g.Pred)
+				if p.Op != flow.OpBin || p.Name != "==" {
+					continue
+				}
+				for _, side := range p.Args {
+					x := flow.StripConv(side)
+					if x.Op == flow.OpIndex {
+						if gt := flow.StripConv(x.Args[0]); gt.Op == flow.OpGlobal || (gt.Op == flow.OpDeref && flow.StripConv(gt.Args[0]).Op == flow.OpAddrG) {
+							name := gt.Name
+							if gt.Op == flow.OpDeref {
+								name = flow.StripConv(gt.Args[0]).Name
+							}
+							found = name
+						}
+					}
+				}
+			}
+			if found == "" || (table != "" && table != found) {
+				okAll = false
+			}
+			table = found
+		}
+		if okAll && table != "" {
+			i := strings.LastIndex(table, ".")
+			if gl := env.P.Global(table[:i], table[i+1:]); gl != nil {
+				only := true
+				for _, f := range env.P.Funcs {
+					for _, b := range f.Blocks {
+						for _, in := range b.Instrs {
+							st, ok := in.(*ssa.Store)
+							if !ok {
+								continue
+							}
+							ia, ok := st.Addr.(*ssa.IndexAddr)
+							if !ok || ia.X != ssa.Value(gl) {
+								continue
+							}
+							c, isC := st.Val.(*ssa.Const)
+							if f.Name() == "init" && isC && c.Value != nil && c.Value.Kind() == constant.String {
+								accepted[constant.StringVal(c.Value)] = true
+							} else {
+								only = false
+							}
+						}
+					}
+				}
+				if !only || len(env.P.GlobalSt[gl]) != 0 {
 					accepted = map[string]bool{}
 				}
 			}
